@@ -683,6 +683,12 @@ impl Kademlia {
                         )
                     }
                 }
+
+                // `ADD_PROVIDER` is never a response: if it arrives on a substream of one of our
+                // requests, that request has failed.
+                if let Some(query_id) = query_id {
+                    self.engine.register_response_failure(query_id, peer);
+                }
             }
             KademliaMessage::GetProviders {
                 key,
@@ -1189,6 +1195,12 @@ impl Kademlia {
                                     ?error,
                                     "failed to process message",
                                 );
+
+                                // A response that cannot be processed is a failed response:
+                                // the query must not keep waiting for this peer.
+                                if let Some(query_id) = query_id {
+                                    self.engine.register_response_failure(query_id, peer);
+                                }
                             }
                         }
                         QueryResult::ReadFailure { reason } => {
